@@ -15,7 +15,7 @@ from rv.refmodel import grid as G
 PROP = "C13"
 RULE = ("cases = pair/family x D x N odd/even x order 0-4 x flags x (L, dt, coefficients) draws; states white noise and smooth; distinct = (monitor, pair/family, flags, D, N parity, order); "
         "non-trivial = the two steppers were built through different public classes and the step changes the state")
-REQUIRED = {"specific_vs_generic": {"quick": 150, "thorough": 800}, "general_vs_normalized": {"quick": 80, "thorough": 400}, "normalized_vs_difficulty": {"quick": 80, "thorough": 400},
+REQUIRED = {"specific_vs_generic": {"quick": 150, "thorough": 600}, "general_vs_normalized": {"quick": 80, "thorough": 400}, "normalized_vs_difficulty": {"quick": 80, "thorough": 400},
             "rescaling_invariance": {"quick": 80, "thorough": 400}, "conversion_formulas": {"quick": 100, "thorough": 400}}
 ASSUMPTIONS = ["generic symbol sum_j a_j sum_d (i k_d)^j: a zeroth-order coefficient counts D times (the documented symbol; FisherKPP(r) == linear_coefficients (r/D, 0, nu))",
                "anisotropic / mixed-derivative options of the specific steppers have no generic counterpart and are not paired"]
